@@ -41,6 +41,7 @@ def unit(model, sizes):
             po[0], po[1] = po[1], po[0]
             pls.append((i, W.run("predict_draw", player_order={i: po})))
     sd = W.spec("draw")
+    second, beta2 = W.run_second_instance("predict_draw")
     P = W.prover()
     mono = W.phi_monotone(P)
     d = term(base[1])
@@ -54,6 +55,16 @@ def unit(model, sizes):
     wrong = P.prove_ge(d, z3.RealVal("9/10"), extra_hyps=mono)[0] == "discharged"
     recs.append(driver.rec(f"C10/{model}/predict_draw/canary-at-least-0.9@{shape}", "discharged" if wrong else "refuted", "field+z3", 0, kind="canary",
                            fn=fn, shape=shape, replay=dict(rp, clause="canary")))
+    # a second instance of the class with another beta, called after the first: a probability as well
+    if second[0] == "return":
+        d2 = term(second[1])
+        P.resolve_ites([d2], extra_hyps=W.phi_monotone(P))
+        rp2 = dict(rp, kind="c12_second", op="predict_draw")
+        recs.append(ge_rec(P, f"C10/{model}/predict_draw/second-instance/nonneg@{shape}", d2, zero, fn, shape, rp2, extra=W.phi_monotone(P)))
+        # its value is that of a fresh model with the same beta (no state shared between instances)
+        recs.append(eq_rec(P, f"C10/{model}/predict_draw/second-instance/equals-fresh-instance@{shape}", d2, term(W.spec("draw", beta=beta2)), fn, shape, rp2))
+    else:
+        recs.append(driver.rec(f"C10/{model}/predict_draw/second-instance/returns@{shape}", "refuted", "explorer", 0, fn=fn, shape=shape, replay=rp))
     for (order, out) in perms:
         if out[0] == "return":
             P.resolve_ites([term(out[1])], extra_hyps=mono)
